@@ -114,8 +114,14 @@ struct Hook {
 }
 impl SchedHook for Hook {
     fn yield_point(&self, p: Point) {
+        // A stream end dropped while a task unwinds (the execution is being aborted: step
+        // bound, deadlock, a panic of the code under test) must not call back into the
+        // runtime: a second panic inside a destructor would abort the whole process.
+        if std::thread::panicking() {
+            return;
+        }
         {
-            let mut st = self.st.borrow_mut();
+            let Ok(mut st) = self.st.try_borrow_mut() else { return };
             st.spin_hint = matches!(p, Point::Contended | Point::WaitYield | Point::Sleep | Point::Join);
             st.points[p as usize] += 1;
         }
